@@ -15,6 +15,7 @@ mod m_own;
 mod m_race;
 mod m_obs_async;
 mod m_aobs;
+mod m_bcast;
 mod m_ovec;
 
 use std::io::{BufRead, Write};
@@ -32,6 +33,7 @@ fn main() {
         "race" => m_race::run_line,
         "aobs" => m_aobs::run_line,
         "e2e" => m_e2e::run_line,
+        "bcast" => m_bcast::run_line,
         #[cfg(eyeball_verif)]
         "conc" => m_conc::run_line,
         #[cfg(eyeball_verif)]
